@@ -12,7 +12,8 @@ TIME UNIT: one tick = 1 MICROSECOND of `time.monotonic()` (an exact clock; IEEE 
   engineIter    : one iteration of `while self.isopen:` — the phases in the order `Generated.threadPhaseCodes` (extracted from
                   `_thread_func` on every run): 0 `_process_send_requests`, 1 `_process_received_data` (recvfrom blocks for `dtRecv`, yields
                   at most one datagram) → `dispatch_recevied_data`, 2 `handler.loop` for each registered handler, 3 `_cleanup_handlers`,
-                  4 `_loop_func`.  An exception escaping phase 2 or 4 (neither is guarded in `_thread_func`) ends the thread.
+                  4 `_loop_func`.  An exception escaping phase 2 or 4 ends the thread iff that call is not guarded in `_thread_func`
+                  (`loopPhaseGuarded`, `loopFuncGuarded`: extracted; both are guarded since the fix of the engine-stop defect).
   Step / run    : engine iterations interleaved with the client-thread calls queue_send / add_receive_handler / handler construction
                   (serialised, as `self._lock` does).
 
@@ -112,8 +113,14 @@ def upd (f : HId → HState) (i : HId) (v : HState) : HId → HState := fun j =>
 def fresh (P : Prog σ) (h : HId) (now : Time) : HState :=
   { start := now, retries := (P.spec h).retries, remove := false, lastDest := none }
 
+/-- `if protocol_handler.last_destination is None: protocol_handler.last_destination = destination` (present in the source iff
+`queueSendRecordsDest`) -/
+def recordDest (s : HState) (d : Option Dest) : HState :=
+  if queueSendRecordsDest && s.lastDest.isNone then { s with lastDest := d } else s
+
 /-- queue_send -/
-def Engine.enq (e : Engine σ) (h : HId) (d : Option Dest) : Engine σ := { e with sendq := e.sendq ++ [(h, d)] }
+def Engine.enq (e : Engine σ) (h : HId) (d : Option Dest) : Engine σ :=
+  { e with hs := upd e.hs h (recordDest (e.hs h) d), sendq := e.sendq ++ [(h, d)] }
 
 /-- GeckoUdpSocket.__init__ at clock `now` -/
 def Engine.new (hs : HId → HState) (c : σ) (now : Time) : Engine σ :=
@@ -206,7 +213,8 @@ def timedOut (P : Prog σ) (h : HId) (e : Engine σ) : Bool :=
      else decide (e.clock - (e.hs h).start ≥ (P.spec h).timeout))
   else false
 
-/-- GeckoUdpProtocolHandler.loop; the Bool says "an exception escaped" -/
+/-- GeckoUdpProtocolHandler.loop; the Bool says "an exception escaped the handler's loop call in `_thread_func`": a raising
+on_retry_failed escapes iff that call is not guarded (`loopPhaseGuarded`, extracted) -/
 def handlerLoop (P : Prog σ) (h : HId) (e : Engine σ) : Engine σ × List Out × Bool :=
   if !timedOut P h e then (e, [], false)
   else if (e.hs h).retries = 0 then
@@ -214,7 +222,7 @@ def handlerLoop (P : Prog σ) (h : HId) (e : Engine σ) : Engine σ × List Out 
     match (P.spec h).onFail with
     | .none => (e, [.timedOut h], false)
     | .remove => ({ e with hs := upd e.hs h { e.hs h with remove := true } }, [.timedOut h, .failed h], false)
-    | .raises => (e, [.timedOut h, .failed h], true)
+    | .raises => (e, [.timedOut h, .failed h], !loopPhaseGuarded)
   else
     -- retry(): decrement, _reset_timeout, queue_send(self, self.last_destination)
     (({ e with hs := upd e.hs h { e.hs h with retries := (e.hs h).retries - 1, start := e.clock } }).enq h (e.hs h).lastDest,
@@ -234,10 +242,10 @@ def loopAll (P : Prog σ) : List HId → Engine σ → Engine σ × List Out
 /-- `_cleanup_handlers` -/
 def cleanup (e : Engine σ) : Engine σ := { e with handlers := e.handlers.filter (fun h => !(e.hs h).remove) }
 
-/-- `_loop_func` -/
+/-- `_loop_func`; an exception ends the thread iff the call is not guarded (`loopFuncGuarded`, extracted) -/
 def loopFuncPhase (P : Prog σ) (e : Engine σ) : Engine σ × List Out :=
   let r := P.loopFunc e.client
-  if r.2 then ({ e with client := r.1, alive := false }, [.died]) else ({ e with client := r.1 }, [])
+  if r.2 && !loopFuncGuarded then ({ e with client := r.1, alive := false }, [.died]) else ({ e with client := r.1 }, [])
 
 /-! ### one iteration -/
 
